@@ -273,7 +273,7 @@ fn step(s: &mut State, t: &mut Tape) -> Result<Option<&'static str>, Failure> {
     match kind {
         CKind::Table => {
             let keys: Vec<String> = mtable(mnav(&mut s.model, &path).ok_or_else(|| hf("model nav"))?).ok_or_else(|| hf("model table"))?.entries.iter().map(|e| e.0.clone()).collect();
-            let op = t.below(13);
+            let op = t.below(14);
             let table = as_table(nav_mut(&mut s.doc, &path).ok_or_else(|| hf("doc nav"))?).ok_or_else(|| hf("doc table"))?;
             let mt = mtable(mnav(&mut s.model, &path).unwrap()).unwrap();
             match op {
@@ -373,6 +373,49 @@ fn step(s: &mut State, t: &mut Tape) -> Result<Option<&'static str>, Failure> {
                     // the lines are kept, their order changes: fragments stay, order is re-derived
                     s.log.push(format!("{}.{}", path_str(&path), if rev { "sort_values_by(reverse key order)" } else { "sort_values()" }));
                     Ok(Some(if rev { "table.sort_values_by" } else { "table.sort_values" }))
+                }
+                13 => {
+                    // a conversion that does not apply (a scalar, a plain or mixed array, ...) is
+                    // refused and hands the item back: putting it back is a no-op edit - content,
+                    // layout and source text of the entry stay as they were
+                    let cand: Vec<String> = mt
+                        .entries
+                        .iter()
+                        .filter(|(_, n)| match n {
+                            Node::Table(_) | Node::Aot(_) => false,
+                            Node::Array(a) => a.is_empty() || !a.iter().all(|e| matches!(e, Node::Table(_))),
+                            other => !is_ph(other),
+                        })
+                        .map(|e| e.0.clone())
+                        .collect();
+                    if cand.is_empty() {
+                        return Ok(None);
+                    }
+                    let k = cand[t.below(cand.len())].clone();
+                    let item = table.get_mut(&k).ok_or_else(|| hf("entry"))?;
+                    let it = std::mem::take(item);
+                    let which = t.below(3);
+                    let (back, refused) = match which {
+                        0 => match it.into_table() {
+                            Ok(tb) => (Item::Table(tb), false),
+                            Err(i) => (i, true),
+                        },
+                        1 => match it.into_array_of_tables() {
+                            Ok(a) => (Item::ArrayOfTables(a), false),
+                            Err(i) => (i, true),
+                        },
+                        _ => {
+                            let mut i = it;
+                            i.make_value();
+                            (i, true)
+                        }
+                    };
+                    *item = back;
+                    if !refused {
+                        return Err(hf("a conversion of a non-table value succeeded"));
+                    }
+                    s.log.push(format!("{}.refused-{}({k:?})", path_str(&path), ["into_table", "into_array_of_tables", "make_value"][which]));
+                    Ok(Some("entry.refused-conversion"))
                 }
                 10 | 11 | 12 => {
                     // conversions between inline and standard forms of one entry
@@ -1311,7 +1354,7 @@ fn prop_with(t: &mut Tape, st: &mut Stats, probe: bool) -> Result<(), Failure> {
 
 pub fn run(args: Args) -> ! {
     let mut rep = Report::new("C08", args.tier, args.seed);
-    rep.rule = "stateful: a generated start document (every line carries a unique comment marker; repeated key-path components spelled consistently) and 1..25 generated edits on containers chosen from the current model: Table insert (new / existing key) / IndexMut assignment / remove / remove_entry / add sub-table / retain / entry().or_insert / sort_values / sort_values_by (reverse key order) / fmt / mutable-indexing probe; Item make_value / into_table / into_array_of_tables on an entry; InlineTable insert / remove / get_or_insert / sort_values(_by) / retain / clear / fmt; Array push / push_formatted / insert (fresh values and values cloned with their decoration from elsewhere in the document) / replace / remove / retain / clear / sort_by_key (stable, with ties) / extend / fmt; ArrayOfTables push / remove / retain / clear. After every edit: the printed text parses (library and reference), decodes to the edited plain model (values before tables; empty arrays of tables and empty implicit/dotted tables hidden), the structure reads back as the model, and the source text `key = value # marker` of every untouched entry is still in the output verbatim. non-trivial = >= 3 edits over >= 2 containers, or a special pattern (insert after remove, replace of the last array element, table under an implicit/dotted parent, sort, array-of-tables removal); distinct by (document, edits)".into();
+    rep.rule = "stateful: a generated start document (every line carries a unique comment marker; repeated key-path components spelled consistently) and 1..25 generated edits on containers chosen from the current model: Table insert (new / existing key) / IndexMut assignment / remove / remove_entry / add sub-table / retain / entry().or_insert / sort_values / sort_values_by (reverse key order) / fmt / mutable-indexing probe; Item make_value / into_table / into_array_of_tables on an entry (also where they do not apply and hand the item back: a no-op); InlineTable insert / remove / get_or_insert / sort_values(_by) / retain / clear / fmt; Array push / push_formatted / insert (fresh values and values cloned with their decoration from elsewhere in the document) / replace / remove / retain / clear / sort_by_key (stable, with ties) / extend / fmt; ArrayOfTables push / remove / retain / clear. After every edit: the printed text parses (library and reference), decodes to the edited plain model (values before tables; empty arrays of tables and empty implicit/dotted tables hidden), the structure reads back as the model, and the source text `key = value # marker` of every untouched entry is still in the output verbatim. non-trivial = >= 3 edits over >= 2 containers, or a special pattern (insert after remove, replace of the last array element, table under an implicit/dotted parent, sort, array-of-tables removal); distinct by (document, edits)".into();
     rep.assumptions = vec![
         "raw decor setters, set_dotted/set_implicit/set_position are outside the quantifier (property text)".into(),
         "comparison of untouched fragments is modulo CR (CR handling is C03's subject)".into(),
@@ -1344,7 +1387,7 @@ pub fn run(args: Args) -> ! {
     finish_run(&mut rep, "edits", run);
     let run = run_tape("C08.f18probe", &prop_f18probe, 3000, args.tier.pick(30_000, 400_000), args.seed, workers());
     finish_run(&mut rep, "f18probe", run);
-    for c in ["entry.make_value", "entry.into_table", "entry.into_array_of_tables", "table.vivify-probe", "inline.vivify-probe", "table.insert-new", "table.insert-existing", "table.remove", "table.add-table", "table.add-table-under-implicit-or-dotted", "table.retain", "table.sort_values", "table.sort_values_by", "inline.sort_values", "inline.retain", "inline.fmt", "array.sort_by_key", "array.extend", "array.fmt", "array.push-cloned", "array.insert-cloned", "aot.retain", "inline.insert", "inline.remove", "array.push", "array.insert", "array.replace", "array.replace-last", "array.remove", "aot.push", "aot.remove"] {
+    for c in ["entry.make_value", "entry.into_table", "entry.into_array_of_tables", "entry.refused-conversion", "table.vivify-probe", "inline.vivify-probe", "table.insert-new", "table.insert-existing", "table.remove", "table.add-table", "table.add-table-under-implicit-or-dotted", "table.retain", "table.sort_values", "table.sort_values_by", "inline.sort_values", "inline.retain", "inline.fmt", "array.sort_by_key", "array.extend", "array.fmt", "array.push-cloned", "array.insert-cloned", "aot.retain", "inline.insert", "inline.remove", "array.push", "array.insert", "array.replace", "array.replace-last", "array.remove", "aot.push", "aot.remove"] {
         rep.require_class(c);
     }
     rep.finish()
